@@ -86,10 +86,10 @@ mut("m20_equal_range_empty_for_present_key", "C03", "flatset.hpp",
     "    const_iterator second = first != end() ? std::next(first) : end();",
     "    const_iterator second = first != end() && std::next(first) != end() ? std::next(first) : first;",
     "equal_range of the greatest element is empty")
-mut("m21_smallset_contains_large_uses_vector", "C04", "smallset.hpp",
+mut("m21_smallset_contains_large_lower_bound", "C04", "smallset.hpp",
     "  bool contains(const_reference k) const { return isSmall() ? find_small(k) != _vec.end() : _set.count(k); }",
-    "  bool contains(const_reference k) const { return _vec.size() != 0 || isSmall() ? find_small(k) != _vec.end() : _set.count(k); }",
-    "contains() consults the small container whenever it is not empty")
+    "  bool contains(const_reference k) const { return isSmall() ? find_small(k) != _vec.end() : _set.lower_bound(k) != _set.end(); }",
+    "contains() of a large set answers 'is there an element not less than k'")
 mut("m22_relocate_keeps_sources_alive", "C15 C02", "memory.hpp",
     "  std::pair<InputIt, OutputIt> p = amc::uninitialized_move_n(first, count, dest);\n  amc::destroy_n(first, count);\n  return p;",
     "  std::pair<InputIt, OutputIt> p = amc::uninitialized_move_n(first, count, dest);\n  if (count > 1) amc::destroy_n(first, count - 1);\n  return p;",
